@@ -826,6 +826,11 @@ class FunctionEmitterVisitor(OpVisitor[None]):
             # Signed right shift
             lhs = self.emit_signed_int_cast(op.lhs.type) + lhs
             rhs = self.emit_signed_int_cast(op.rhs.type) + rhs
+        if op.op in (IntOp.LEFT_SHIFT, IntOp.RIGHT_SHIFT) and isinstance(op.lhs, Integer):
+            # In C the type of a shift is the promoted type of the left operand only. A
+            # literal left operand is emitted as a plain int, so give it the type of the
+            # operation (otherwise 1 << x with x: i64 is evaluated in 32 bits).
+            lhs = f"({self.ctype(op.type)}){lhs}"
         self.emit_line(f"{dest} = {lhs} {op.op_str[op.op]} {rhs};")
 
     def visit_comparison_op(self, op: ComparisonOp) -> None:
